@@ -47,7 +47,7 @@ SIM = ("simulate: generated tables, 3 inners",
 def run(tier):
     ck = core.Check("C12", tier)
     runs = QUICK if tier == "quick" else THOROUGH
-    lines = mc.export_runs(ck, runs, par=4, named=(tier != "quick"))
+    lines = mc.export_runs(ck, runs, par=4, named=(tier != "quick"), timeout=(600 if tier == "quick" else 3000))
     groups = core.group_allowed(lines)
     ck.exhaustive = True
     ck.note("scenarios_exhaustive", len(groups))
